@@ -123,7 +123,8 @@ class Ctx:
             return self._reg(name, v)
         cs = []
         for i in range(n):
-            c = z3.BitVec("%s_%d" % (name, i), W)
+            # a code point is a 21-bit variable, zero-extended to the engine's word size (cheaper for the solver)
+            c = z3.ZeroExt(W - 21, z3.BitVec("%s_%d" % (name, i), 21))
             E.solver.add(c >= lo, c <= hi)
             if no_surrogates and lo <= SURR_HI and hi >= SURR_LO:
                 E.solver.add(z3.Or(c < SURR_LO, c > SURR_HI))
@@ -242,6 +243,8 @@ class Ctx:
 def _has_excluded(v):
     if v is EXCLUDED:
         return True
+    if isinstance(v, tuple) and len(v) >= 1 and isinstance(v[0], str) and v[0] == "excluded":
+        return True          # raw result of common.call() whose outcome is outside the claim
     if isinstance(v, (tuple, list)):
         return any(_has_excluded(x) for x in v)
     return False
